@@ -136,6 +136,45 @@ def bilateral_loop(v, sigma_space, sigma_color, width):
     return out, touched
 
 
+def bilateral_even(v, sigma_space, sigma_color, width, low_side):
+    """
+    even window widths have no centre pixel: the window of a pixel is either [p - w/2, p + w/2 - 1] (`low_side`
+    True) or [p - w/2 + 1, p + w/2] (False) in each direction; in both readings the spatial weight is the Gaussian
+    of the distance to the pixel itself and the range weight is taken against the pixel's own value.
+    Returns (expected float64, touched) like bilateral_fast; untouched pixels keep their value.
+    """
+    v = np.asarray(v, dtype=np.float64)
+    assert width % 2 == 0 and width >= 2
+    ny, nx = v.shape
+    half = width // 2
+    lo, hi = (-half, half - 1) if low_side else (-half + 1, half)
+    out = v.copy()
+    touched = np.zeros(v.shape, dtype=bool)
+    if ny < width or nx < width:
+        return out, touched
+    h, w = ny - width + 1, nx - width + 1
+    r0, c0 = -lo, -lo
+    centre = v[r0: r0 + h, c0: c0 + w]
+    num = np.zeros((h, w))
+    den = np.zeros((h, w))
+    with np.errstate(invalid="ignore"):
+        for dy in range(lo, hi + 1):
+            for dx in range(lo, hi + 1):
+                s = v[r0 + dy: r0 + dy + h, c0 + dx: c0 + dx + w]
+                wgt = np.exp(-(dy * dy + dx * dx) / (2.0 * sigma_space ** 2)) * np.exp(
+                    -((s - centre) ** 2) / (2.0 * sigma_color ** 2)
+                )
+                good = ~np.isnan(s) & ~np.isnan(centre)
+                num += np.where(good, wgt * s, 0.0)
+                den += np.where(good, wgt, 0.0)
+    ok = ~np.isnan(centre)
+    with np.errstate(invalid="ignore", divide="ignore"):
+        res = num / den
+    out[r0: r0 + h, c0: c0 + w] = np.where(ok, res, centre)
+    touched[r0: r0 + h, c0: c0 + w] = ok
+    return out, touched
+
+
 def bilateral_fast(v, sigma_space, sigma_color, width):
     v = np.asarray(v, dtype=np.float64)
     assert width % 2 == 1
